@@ -182,7 +182,8 @@ Inductive op :=
 | Add (x : Z) | Union (x y : Z) | Find (x : Z) | Connected (x y : Z) | Component (x : Z)
 | Roots | Components | Mapping | Len | NComps | Contains (x : Z) | GetItem (i : Z).
 
-(* what the implementation was seen to answer (canonicalised by the harness) *)
+(* what the implementation was seen to answer (canonicalised by the harness); OValueError / OIndexError stand for
+   a refusal by an exception of ANY class (the class and message are not constrained by the property) *)
 Inductive obs :=
 | ONone                         (* returned None *)
 | OValueError                   (* raised ValueError: element absent *)
@@ -246,13 +247,14 @@ Definition step (s : uf) (o : op) (w : obs) : res (uf * bool) :=
   | Connected x y =>
       match connected s x y with
       | Ok (s', b) => Ok (s', match w with OBool b' => Bool.eqb b b' | _ => false end)
-      | ValueError => Ok (s, match w with OValueError => true | _ => false end)
+      (* an absent element is joined to nothing: a refusal, or the answer False *)
+      | ValueError => Ok (s, match w with OValueError => true | OBool false => true | _ => false end)
       | OutOfFuel => OutOfFuel
       end
   | Component x =>
       match component s x with
       | Ok (s', l) => Ok (s', match w with OSet l' => zl_eqb (sortz l) l' | _ => false end)
-      | ValueError => Ok (s, match w with OValueError => true | _ => false end)
+      | ValueError => Ok (s, match w with OValueError => true | OSet [] => true | _ => false end)
       | OutOfFuel => OutOfFuel
       end
   | Roots =>
@@ -285,10 +287,14 @@ Definition step (s : uf) (o : op) (w : obs) : res (uf * bool) :=
   | NComps => Ok (s, match w with ONat n => Nat.eqb n (ncomps s) | _ => false end)
   | Contains x => Ok (s, match w with OBool b => Bool.eqb b (mem s x) | _ => false end)
   | GetItem i =>
-      match getitem s i with
-      | Some e => Ok (s, match w with OElt e' => Z.eqb e e' | _ => false end)
-      | None => Ok (s, match w with OIndexError => true | _ => false end)
-      end
+      (* the numbering of the stored elements is not fixed by the property: any stored element is accepted for an
+         index below len (one element per index is checked by the harness); a refusal where the code refuses;
+         for a negative index also Python's convention *)
+      Ok (s, match w with
+             | OElt e' => mem s e' && Z.ltb i (Z.of_nat (n_elts s)) && Z.leb (- Z.of_nat (n_elts s)) i
+             | OIndexError => match getitem s i with None => true | Some _ => false end
+             | _ => false
+             end)
   end.
 
 (* run a whole history; true iff every observation agrees and no step errs *)
